@@ -358,7 +358,8 @@ def build_obasis(
     if obasis.nbasis != nbasis:
         raise LoadError(
             "The basis set size derived from icenters is inconsistent with "
-            "the number of primitives."
+            "the number of primitives.",
+            lit,
         )
     return obasis, permutation
 
